@@ -37,7 +37,9 @@ Inductive expr :=
 | EPart (x : var) (k : nat)              (* element/field k of variable x: a non-temporary reference *)
 | ELit (n : N)                           (* literal / constructor / conversion: new temporary of n bytes (0: empty value) *)
 | EUse1 (a : expr)                       (* primitive-valued operator on a non-primitive operand (Länge, text index, ist ein) *)
-| EUse2 (a b : expr)                     (* ... on two operands (gleich, ungleich) *)
+| EUse2 (a b : expr)                     (* two operands, each read in place by a primitive-valued operator ((die Länge von a) plus
+                                            (die Länge von b)); the early copy of a variable LEFT operand of a binary operator
+                                            applied directly to non-primitives (7366b9f) is modelled for EConcat only *)
 | EDerive (a : expr) (n : N)             (* new n-byte temporary computed from an operand that is NOT consumed
                                             (slice, cast of a non-temporary Variable) *)
 | EElem (a : expr) (k : nat)             (* element k of the list value of a (BIN_INDEX): a reference INTO a's storage if a is a
